@@ -4,11 +4,11 @@ go 1.23
 
 require (
 	github.com/contiv/libOpenflow v0.0.0
+	github.com/sirupsen/logrus v1.9.0
 	golang.org/x/tools v0.29.0
 )
 
 require (
-	github.com/sirupsen/logrus v1.9.0 // indirect
 	golang.org/x/exp v0.0.0-20230420155350-5d9e357047b1 // indirect
 	golang.org/x/mod v0.22.0 // indirect
 	golang.org/x/sync v0.10.0 // indirect
